@@ -354,3 +354,124 @@ Proof.
   cbv zeta. unfold mm_phase. destruct (mm_stage thr b c f o) as [s kw]. cbn [fst].
   destruct s; cbn; destruct (Z.odd c); split; intros [E|E]; congruence.
 Qed.
+
+(* ------------------------------------------------------------------ the request-level wiring
+   (MetricsInfo.has_optimized_metric_thresholds and View.form_multimetric_info) *)
+Definition has_optimized_threshold (thr : list (option Q)) (optimized : list nat) : Prop :=
+  exists i t, In i optimized /\ nth_error thr i = Some (Some t).
+Definition in_range (thr : list (option Q)) (optimized : list nat) : Prop :=
+  forall i, In i optimized -> (i < length thr)%nat.
+
+Lemma optimized_threshold_b_spec thr opt : optimized_threshold_b thr opt = true <-> has_optimized_threshold thr opt.
+Proof.
+  unfold optimized_threshold_b, has_optimized_threshold. rewrite existsb_exists. split.
+  - intros (i & Hin & H). destruct (nth_error thr i) as [[t|]|] eqn:E; try discriminate. exists i, t. split; assumption.
+  - intros (i & t & Hin & E). exists i. split; [exact Hin|]. rewrite E. reflexivity.
+Qed.
+
+Lemma columns_in_range_spec thr opt : columns_in_range thr opt = true <-> in_range thr opt.
+Proof.
+  unfold columns_in_range, in_range. rewrite forallb_forall. split; intros H i Hi; specialize (H i Hi).
+  - apply Nat.ltb_lt. exact H.
+  - apply Nat.ltb_lt. exact H.
+Qed.
+
+Lemma any_threshold_at_spec thr : forall opt, in_range thr opt ->
+  any_threshold_at thr opt = Some (optimized_threshold_b thr opt).
+Proof.
+  induction opt as [|i r IH]; intros Hr; [reflexivity|].
+  cbn [any_threshold_at optimized_threshold_b existsb].
+  assert (Hi : (i < length thr)%nat) by (apply Hr; left; reflexivity).
+  destruct (nth_error thr i) as [[t|]|] eqn:E.
+  - reflexivity.
+  - cbn [orb]. apply IH. intros j Hj. apply Hr. right. exact Hj.
+  - apply nth_error_None in E. lia.
+Qed.
+
+(* the flag the request hands to the phase selector is "some optimised metric COLUMN carries a threshold": thresholds of
+   constraint or stored metrics, wherever their columns are, are not consulted *)
+Theorem has_thresholds_spec thr opt : in_range thr opt ->
+  exists flag, has_optimized_metric_thresholds thr opt = Some flag /\ (flag = true <-> has_optimized_threshold thr opt).
+Proof.
+  intros Hr. exists (optimized_threshold_b thr opt). split; [|apply optimized_threshold_b_spec].
+  unfold has_optimized_metric_thresholds. destruct opt as [|i r]; [reflexivity|]. apply any_threshold_at_spec. exact Hr.
+Qed.
+
+(* the flag depends only on the entries at the optimised columns, not on the order in which the columns are listed *)
+Theorem has_thresholds_only_optimized_columns thr thr' opt opt' : in_range thr opt -> in_range thr' opt' ->
+  (forall i, In i opt <-> In i opt') ->
+  (forall i, In i opt -> (nth_error thr i = Some None <-> nth_error thr' i = Some None)) ->
+  has_optimized_metric_thresholds thr opt = has_optimized_metric_thresholds thr' opt'.
+Proof.
+  intros Hr Hr' Hsame Hagree.
+  destruct (has_thresholds_spec thr opt Hr) as (b & -> & Hb).
+  destruct (has_thresholds_spec thr' opt' Hr') as (b' & -> & Hb').
+  f_equal. apply eq_true_iff_eq. rewrite Hb, Hb'. unfold has_optimized_threshold.
+  split; intros (i & t & Hin & E).
+  - assert (Hi' : In i opt') by (apply Hsame; exact Hin).
+    destruct (nth_error thr' i) as [[t'|]|] eqn:E'.
+    + exists i, t'. split; assumption.
+    + apply (Hagree i Hin) in E'. congruence.
+    + apply nth_error_None in E'. specialize (Hr' i Hi'). lia.
+  - assert (Hi : In i opt) by (apply Hsame; exact Hin).
+    destruct (nth_error thr i) as [[t'|]|] eqn:E'.
+    + exists i, t'. split; assumption.
+    + apply (Hagree i Hi) in E'. congruence.
+    + apply nth_error_None in E'. specialize (Hr i Hi). lia.
+Qed.
+
+(* the phase of a request is the phase selector applied to the documented flags and counts *)
+Theorem request_phase_documented r : in_range (rq_thresholds r) (rq_optimized r) ->
+  exists flag, (flag = true <-> has_optimized_threshold (rq_thresholds r) (rq_optimized r)) /\
+    request_phase r =
+      Some (if rq_pareto r
+            then mm_phase flag (rq_budget r) (Z.of_nat (length (rq_failures r))) (Z.of_nat (count_true (rq_failures r)))
+                          (match rq_open r with Some k => Z.of_nat k | None => 0%Z end)
+            else (LNotMM, None)) /\
+    forall pick us halton,
+      request_info r pick us halton =
+      view_info (rq_pareto r) flag (rq_budget r) (Z.of_nat (length (rq_failures r))) (Z.of_nat (count_true (rq_failures r)))
+                (match rq_open r with Some k => Z.of_nat k | None => 0%Z end) pick us halton.
+Proof.
+  intros Hr. destruct (has_thresholds_spec _ _ Hr) as (flag & E & Hflag).
+  exists flag. split; [exact Hflag|].
+  unfold request_info, request_phase, view_info, rq_count, rq_failure_count, rq_open_count. rewrite E.
+  destruct (rq_pareto r); cbn [negb]; split; try reflexivity; intros pick us halton; reflexivity.
+Qed.
+
+(* every request of every shape gets a well-formed multimetric_info *)
+Theorem request_schedule_spec r pick us halton : in_range (rq_thresholds r) (rq_optimized r) ->
+  halton_ok halton = true -> draws_ok us ->
+  exists i, request_info r pick us halton = Some i /\ info_ok i.
+Proof.
+  intros Hr Hh Hu. destruct (request_phase_documented r Hr) as (flag & _ & _ & ->).
+  apply schedule_spec; assumption.
+Qed.
+
+(* the pair of boundaries that depends on the flag: with more than 10 % completed and the served fraction in (55 %, 65 %] a
+   request polishes one metric exactly when no optimised column carries a threshold, and is in the epsilon-constraint phase
+   otherwise *)
+Theorem request_polish_window r : in_range (rq_thresholds r) (rq_optimized r) -> rq_pareto r = true ->
+  let fs := fraction_served (rq_budget r) (rq_count r) (rq_failure_count r) (rq_open_count r) in
+  let fc := fraction_completed (rq_budget r) (rq_count r) (rq_failure_count r) (rq_open_count r) in
+  55#100 < fs <= 65#100 -> ~ fc <= 1#10 ->
+  exists l kw, request_phase r = Some (l, kw) /\
+    (has_optimized_threshold (rq_thresholds r) (rq_optimized r) -> (l = LEps0 \/ l = LEps1) /\ kw <> None) /\
+    (~ has_optimized_threshold (rq_thresholds r) (rq_optimized r) -> (l = LOpt0 \/ l = LOpt1) /\ kw = None).
+Proof.
+  intros Hr Hp. cbv zeta. intros Hfs Hfc.
+  destruct (has_thresholds_spec _ _ Hr) as (flag & E & Hflag).
+  unfold request_phase. rewrite Hp, E. cbn [negb].
+  pose proof (mm_stage_table flag (rq_budget r) (rq_count r) (rq_failure_count r) (rq_open_count r)) as T. cbv zeta in T.
+  destruct T as (_ & _ & _ & _ & TP & TE & _).
+  pose proof (mm_phase_total flag (rq_budget r) (rq_count r) (rq_failure_count r) (rq_open_count r)) as [_ Tot].
+  unfold mm_phase. destruct (mm_stage flag _ _ _ _) as [s kw] eqn:Es. cbn [fst snd] in *.
+  exists (mm_label s (rq_count r)), kw. split; [reflexivity|]. split.
+  - intros H. apply Hflag in H. subst flag. cbn [POLISH_ONE_METRIC_FRAC] in TE. unfold CONVEX_SPREAD_FRAC in TE.
+    assert (Hs : s = MEps) by (apply TE; split; [exact Hfc|split; lra]). subst s. cbn [mm_label needs_fraction] in *.
+    split; [destruct (Z.odd _); auto|]. destruct kw; [discriminate|discriminate Tot].
+  - intros H. assert (flag = false) by (destruct flag; [exfalso; apply H, Hflag; reflexivity|reflexivity]). subst flag.
+    cbn [POLISH_ONE_METRIC_FRAC] in TP.
+    assert (Hs : s = MPolish) by (apply TP; split; [exact Hfc|split; lra]). subst s. cbn [mm_label needs_fraction] in *.
+    split; [destruct (Z.odd _); auto|]. destruct kw as [cf|]; [destruct Tot; discriminate|reflexivity].
+Qed.
